@@ -173,6 +173,11 @@ def check_swan(case, ctx):
     from wavespectra import read_swan
 
     ds = build(case)
+    north360 = case["minutes"] == 30 and 0.0 in case["dg"]["d"]
+    if north360:
+        # north labelled 360 instead of 0 (a listing 30, 60, ..., 360): written verbatim, read back modulo 360
+        ds = ds.assign_coords(dir=np.where(ds.dir.values == 0.0, 360.0, ds.dir.values))
+        ctx.label("north-labelled-360")
     w = _work()
     path = os.path.join(w, "rt.spec" + (".gz" if case["gz"] else ""))
     try:
@@ -194,7 +199,7 @@ def check_swan(case, ctx):
         def q(a):
             return 0.5 * a.max() / 9998.0 * (1 + 1e-6) + 1e-8 * a.max()
 
-        compare(src, got, q, "SWAN ASCII (%s%s%s)" % (case["layout"], ", gz" if case["gz"] else "", ", ntime=%r" % case["ntime"]))
+        compare(src, got, q, "SWAN ASCII (%s%s%s)" % (case["layout"], ", gz" if case["gz"] else "", ", ntime=%r" % case["ntime"]), dir_mod=north360)
     finally:
         shutil.rmtree(w, ignore_errors=True)
     ctx.nt(_nt(case, ds))
